@@ -14,6 +14,7 @@ import scipy.sparse as sps
 from .. import boot  # noqa: F401
 from .. import cfg as C
 from .. import ref as R
+from .. import work
 from ..gen import SpecProblem, make_spec, rng_for
 
 LEVEL = "exploration"
@@ -79,184 +80,194 @@ def run_case(case):
         ctr[k] = ctr.get(k, 0) + v
 
     for k in range(case["count"]):
-        fam = str(rng.choice(["NLP", "NLP", "NLP", "QP", "DEG", "INF"]))
-        gseed = case["seed"] + [k]
-        spec = make_spec(fam, gseed)
-        sc = str(rng.choice(["none", "none", "custom"]))
-        weights = C.scaling_weights(rng, spec.n, spec.m, span=4) if sc == "custom" else None
-        fmt = str(rng.choice(["coo", "csr", "csc"]))
-        prob = SpecProblem(spec, fmt=fmt)
-        params = C.make_params({"scaling": sc}, spec, weights=weights)
-        T = Transformation(prob, params)
-        tp = T.trans_problem
-        w = (R.Weights(weights["vw"], weights["cw"], weights["ow"]) if weights else R.Weights.zero(spec.n, spec.m))
-        D = R.internal_dense(R.user_dense(spec), w)
-        n, m = D.n, D.m
-        x = gen_point(rng, D)
-        y = rng.normal(size=m) * 10.0 ** rng.uniform(-2, 2)
-        rho = float(10.0 ** rng.uniform(-8, 2))
-        dt = float(10.0 ** rng.uniform(-6, 3))
-        xh = gen_point(rng, D)
-        xh = np.minimum(np.maximum(xh, D.lb), D.ub)
-        yh = rng.normal(size=m)
-        atol = params.active_tol
-        it = Iterate(tp, params, x, y, T.evaluator)
-        ith = Iterate(tp, params, xh, yh, T.evaluator)
-        key = {"family": fam, "scaling": sc}
+        try:
+            fam = str(rng.choice(["NLP", "NLP", "NLP", "QP", "DEG", "INF", "F32QP", "INTQP"]))
+            gseed = case["seed"] + [k]
+            spec = make_spec(fam, gseed)
+            sc = str(rng.choice(["none", "none", "custom"]))
+            weights = C.scaling_weights(rng, spec.n, spec.m, span=4) if sc == "custom" else None
+            fmt = str(rng.choice(["coo", "csr", "csc"]))
+            prob = SpecProblem(spec, fmt=fmt)
+            params = C.make_params({"scaling": sc}, spec, weights=weights)
+            T = Transformation(prob, params)
+            tp = T.trans_problem
+            w = (R.Weights(weights["vw"], weights["cw"], weights["ow"]) if weights else R.Weights.zero(spec.n, spec.m))
+            D = R.internal_dense(R.user_dense(spec), w)
+            n, m = D.n, D.m
+            x = gen_point(rng, D)
+            y = rng.normal(size=m) * 10.0 ** rng.uniform(-2, 2)
+            rho = float(10.0 ** rng.uniform(-8, 2))
+            dt = float(10.0 ** rng.uniform(-6, 3))
+            xh = gen_point(rng, D)
+            xh = np.minimum(np.maximum(xh, D.lb), D.ub)
+            yh = rng.normal(size=m)
+            atol = params.active_tol
+            if m:
+                bump("jacobian_dtype_%s" % prob.cons_jac(np.array(spec.x0, dtype=float)).dtype)
+            it = Iterate(tp, params, x, y, T.evaluator)
+            ith = Iterate(tp, params, xh, yh, T.evaluator)
+            key = {"family": fam, "scaling": sc}
 
-        def bad(q, what, detail=None):
-            kk = dict(key)
-            kk["quantity"] = q
-            viol.append({"what": "%s: %s" % (q, what), "key": kk,
-                         "detail": dict(detail or {}, fam=fam, gseed=gseed, rho=rho, dt=dt, x=x, y=y)})
+            def bad(q, what, detail=None):
+                kk = dict(key)
+                kk["quantity"] = q
+                viol.append({"what": "%s: %s" % (q, what), "key": kk,
+                             "detail": dict(detail or {}, fam=fam, gseed=gseed, rho=rho, dt=dt, x=x, y=y)})
 
-        def cmp(q, got, ref, mag):
-            bump("compared_" + q)
-            ok, worst = near(got, ref, mag)
-            if worst is not None and np.isfinite(worst):
-                worst_ratio[q] = max(worst_ratio.get(q, 0.0), worst)
-            if not ok:
-                bad(q, "differs from the reference definition (error / allowance = %s)" % worst,
-                    {"got": np.asarray(got), "ref": np.asarray(ref)})
-            return ok
+            def cmp(q, got, ref, mag):
+                bump("compared_" + q)
+                ok, worst = near(got, ref, mag)
+                if worst is not None and np.isfinite(worst):
+                    worst_ratio[q] = max(worst_ratio.get(q, 0.0), worst)
+                if not ok:
+                    bad(q, "differs from the reference definition (error / allowance = %s)" % worst,
+                        {"got": np.asarray(got), "ref": np.asarray(ref)})
+                return ok
 
-        # magnitudes
-        ca = D.cabs(x)
-        fa = D.fabs(x)
-        ga = D.gabs(x)
-        Ja = D.Jabs(x)
-        ya = np.abs(y)
-        c = D.c(x)
-        mag_dx = ga + Ja.T.dot(rho * ca + ya)
-        cmp("cons", it.cons, c, ca)
-        cmp("obj", it.obj, D.f(x), fa)
-        cmp("obj_grad", it.obj_grad, D.g(x), ga)
-        cmp("cons_jac", it.cons_jac.toarray(), D.J(x), Ja)
-        cmp("aug_lag", it.aug_lag(rho), R.aug_lag(D, x, y, rho), fa + 0.5 * rho * ca.dot(ca) + ca.dot(ya))
-        cmp("aug_lag_deriv_x", it.aug_lag_deriv_x(rho), R.aug_lag_dx(D, x, y, rho), mag_dx)
-        cmp("aug_lag_deriv_y", it.aug_lag_deriv_y(), c, ca)
-        cmp("aug_lag_deriv_xy", it.aug_lag_deriv_xy().toarray(), D.J(x), Ja)
-        Hmag = D.Habs(x, ya + rho * ca) + rho * Ja.T.dot(Ja)
-        Hxx = it.aug_lag_deriv_xx(rho)
-        cmp("aug_lag_deriv_xx", Hxx.toarray() if sps.issparse(Hxx) else np.asarray(Hxx),
-            R.aug_lag_dxx(D, x, y, rho), Hmag)
-        mag_r = ga + Ja.T.dot(ya)
-        cmp("bounds_dual", it.bounds_dual, R.bounds_dual(D, x, y, atol), mag_r)
-        cmp("stat_res", it.stat_res, R.stat_res(D, x, y, atol), float(np.max(mag_r)) if n else 0.0)
-        cmp("bound_violation", it.bound_violation, R.bound_violation(D, x), float(np.max(np.abs(x))) + 1.0)
-        cmp("cons_violation", it.cons_violation, R.cons_violation(D, x), float(np.max(ca)) if m else 0.0)
-        cmp("total_res", it.total_res, R.total_res(D, x, y, atol),
-            max(float(np.max(mag_r)) if n else 0.0, float(np.max(ca)) if m else 0.0, float(np.max(np.abs(x))) + 1.0))
-        # boolean predicates (skip when the reference value sits within rounding of a threshold)
-        ftol = float(10.0 ** rng.uniform(-8, 1))
-        ltol = float(10.0 ** rng.uniform(-8, 1))
-        cv = R.cons_violation(D, x)
-        bv = R.bound_violation(D, x)
-        inf_res, _ = R.infeas_stationarity(D, x, atol)
-        # note: fixed variables are not projected by the repository's test; mirror the definition used there
-        lo, up, both = R.active_flags(D, x, atol)
-        rr = D.J(x).T.dot(c)
-        rr = np.array(rr, copy=True)
-        rr[lo] = np.minimum(rr[lo], 0.0)
-        rr[up] = np.maximum(rr[up], 0.0)
-        inf_res = float(np.max(np.abs(rr))) if n else 0.0
-        margin = 1e-9
-        if abs(cv - ftol) > margin * (ftol + cv) and abs(inf_res - ltol) > margin * (ltol + inf_res):
-            exp = (cv > ftol) and (inf_res <= ltol)
-            bump("compared_locally_infeasible")
-            bump("locally_infeasible_true", int(exp))
-            if bool(it.locally_infeasible(ftol, ltol)) != exp:
-                bad("locally_infeasible", "returned %s, definition gives %s (violation %.3e vs %.3e, projected "
-                    "gradient %.3e vs %.3e)" % (not exp, exp, cv, ftol, inf_res, ltol))
-        if abs(cv - ftol) > margin * (ftol + cv) and abs(bv - ftol) > margin * (ftol + bv):
-            exp = (cv <= ftol) and (bv <= ftol)
-            bump("compared_is_feasible")
-            if bool(it.is_feasible(ftol)) != exp:
-                bad("is_feasible", "returned %s, definition gives %s" % (not exp, exp))
+            # magnitudes
+            ca = D.cabs(x)
+            fa = D.fabs(x)
+            ga = D.gabs(x)
+            Ja = D.Jabs(x)
+            ya = np.abs(y)
+            c = D.c(x)
+            mag_dx = ga + Ja.T.dot(rho * ca + ya)
+            cmp("cons", it.cons, c, ca)
+            cmp("obj", it.obj, D.f(x), fa)
+            cmp("obj_grad", it.obj_grad, D.g(x), ga)
+            cmp("cons_jac", it.cons_jac.toarray(), D.J(x), Ja)
+            cmp("aug_lag", it.aug_lag(rho), R.aug_lag(D, x, y, rho), fa + 0.5 * rho * ca.dot(ca) + ca.dot(ya))
+            cmp("aug_lag_deriv_x", it.aug_lag_deriv_x(rho), R.aug_lag_dx(D, x, y, rho), mag_dx)
+            cmp("aug_lag_deriv_y", it.aug_lag_deriv_y(), c, ca)
+            cmp("aug_lag_deriv_xy", it.aug_lag_deriv_xy().toarray(), D.J(x), Ja)
+            Hmag = D.Habs(x, ya + rho * ca) + rho * Ja.T.dot(Ja)
+            Hxx = it.aug_lag_deriv_xx(rho)
+            cmp("aug_lag_deriv_xx", Hxx.toarray() if sps.issparse(Hxx) else np.asarray(Hxx),
+                R.aug_lag_dxx(D, x, y, rho), Hmag)
+            mag_r = ga + Ja.T.dot(ya)
+            cmp("bounds_dual", it.bounds_dual, R.bounds_dual(D, x, y, atol), mag_r)
+            cmp("stat_res", it.stat_res, R.stat_res(D, x, y, atol), float(np.max(mag_r)) if n else 0.0)
+            cmp("bound_violation", it.bound_violation, R.bound_violation(D, x), float(np.max(np.abs(x))) + 1.0)
+            cmp("cons_violation", it.cons_violation, R.cons_violation(D, x), float(np.max(ca)) if m else 0.0)
+            cmp("total_res", it.total_res, R.total_res(D, x, y, atol),
+                max(float(np.max(mag_r)) if n else 0.0, float(np.max(ca)) if m else 0.0, float(np.max(np.abs(x))) + 1.0))
+            # boolean predicates (skip when the reference value sits within rounding of a threshold)
+            ftol = float(10.0 ** rng.uniform(-8, 1))
+            ltol = float(10.0 ** rng.uniform(-8, 1))
+            cv = R.cons_violation(D, x)
+            bv = R.bound_violation(D, x)
+            inf_res, _ = R.infeas_stationarity(D, x, atol)
+            # note: fixed variables are not projected by the repository's test; mirror the definition used there
+            lo, up, both = R.active_flags(D, x, atol)
+            rr = D.J(x).T.dot(c)
+            rr = np.array(rr, copy=True)
+            rr[lo] = np.minimum(rr[lo], 0.0)
+            rr[up] = np.maximum(rr[up], 0.0)
+            inf_res = float(np.max(np.abs(rr))) if n else 0.0
+            margin = 1e-9
+            if abs(cv - ftol) > margin * (ftol + cv) and abs(inf_res - ltol) > margin * (ltol + inf_res):
+                exp = (cv > ftol) and (inf_res <= ltol)
+                bump("compared_locally_infeasible")
+                bump("locally_infeasible_true", int(exp))
+                if bool(it.locally_infeasible(ftol, ltol)) != exp:
+                    bad("locally_infeasible", "returned %s, definition gives %s (violation %.3e vs %.3e, projected "
+                        "gradient %.3e vs %.3e)" % (not exp, exp, cv, ftol, inf_res, ltol))
+            if abs(cv - ftol) > margin * (ftol + cv) and abs(bv - ftol) > margin * (ftol + bv):
+                exp = (cv <= ftol) and (bv <= ftol)
+                bump("compared_is_feasible")
+                if bool(it.is_feasible(ftol)) != exp:
+                    bad("is_feasible", "returned %s, definition gives %s" % (not exp, exp))
 
-        # ---- implicit function
-        func = ImplicitFunc(tp, ith, dt)
-        sfunc = ScaledImplicitFunc(tp, ith, dt)
-        lam = 1.0 / dt
-        finite_lb = np.where(np.isfinite(D.lb), np.abs(D.lb), 0.0)
-        finite_ub = np.where(np.isfinite(D.ub), np.abs(D.ub), 0.0)
-        p = R.proj_point(D, xh, x, y, rho, dt)
-        pmag = np.abs(xh) + dt * mag_dx
-        amb = (np.abs(p - (D.lb - 1e-8)) <= 1e-10 * (pmag + 1.0)) | (np.abs(p - (D.ub + 1e-8)) <= 1e-10 * (pmag + 1.0))
-        act_ref = R.active_set(D, p)
-        cmp("projection_initial", func.projection_initial(it, rho), p, pmag)
-        if not amb.any():
-            act_got = func.compute_active_set(it, rho)
-            bump("compared_active_set")
-            bump("active_set_nonempty", int(act_ref.any()))
-            if act_got.dtype != bool or not np.array_equal(act_got, act_ref):
-                bad("compute_active_set", "active set %s differs from definition %s" % (act_got, act_ref))
-            Fref, _ = R.implicit_F(D, xh, yh, x, y, rho, dt)
-            Fmag = np.concatenate([np.abs(x) + pmag + (finite_lb + finite_ub) * act_ref,
-                                   ya + np.abs(yh) + dt * ca])
-            cmp("value_at", func.value_at(it, rho), Fref, Fmag)
-        # tau variant of the active-set rule
-        tau = float(10.0 ** rng.uniform(-3, 1))
-        ptau = R.proj_point(D, xh, x, y, rho, dt, tau)
-        ptmag = (abs(1.0 - tau * lam) * np.abs(x) + tau * lam * np.abs(xh) + tau * mag_dx)
-        cmp("projection_initial_tau", func.projection_initial(it, rho, tau), ptau, ptmag)
-        ambt = (np.abs(ptau - (D.lb - 1e-8)) <= 1e-10 * (ptmag + 1.0)) | (np.abs(ptau - (D.ub + 1e-8)) <= 1e-10 * (ptmag + 1.0))
-        if not ambt.any():
-            bump("compared_active_set_tau")
-            if not np.array_equal(func.compute_active_set(it, rho, tau), R.active_set(D, ptau)):
-                bad("compute_active_set(tau)", "active set differs from definition for tau=%r" % tau)
-        # given (random) active set
-        act = rng.random(size=n) < 0.4
-        Fref, _ = R.implicit_F(D, xh, yh, x, y, rho, dt, act)
-        finite_lb = np.where(np.isfinite(D.lb), np.abs(D.lb), 0.0)
-        finite_ub = np.where(np.isfinite(D.ub), np.abs(D.ub), 0.0)
-        Fmag = np.concatenate([np.abs(x) + pmag + (finite_lb + finite_ub) * act, ya + np.abs(yh) + dt * ca])
-        cmp("value_at(active_set)", func.value_at(it, rho, act), Fref, Fmag)
-        proj = func.project(np.copy(p), act)
-        bump("compared_project")
-        if not (np.all(proj[act] >= D.lb[act]) and np.all(proj[act] <= D.ub[act])):
-            bad("project", "projected components outside the box")
-        if not np.array_equal(proj[~act], p[~act]):
-            bad("project", "inactive components were changed by the projection")
-        exp_proj = np.array(p, copy=True)
-        exp_proj[act] = np.minimum(np.maximum(p[act], D.lb[act]), D.ub[act])
-        if not np.array_equal(proj, exp_proj):
-            bad("project", "projection differs from clip on the active components")
-        dF = func.deriv(it.aug_lag_deriv_xy(), it.aug_lag_deriv_xx(rho), act)
-        dFref = R.implicit_dF(D, x, y, rho, dt, act)
-        dmag = np.block([[np.eye(n) + dt * Hmag, dt * Ja.T], [dt * Ja, np.eye(m)]])
-        cmp("deriv", dF.toarray(), dFref, dmag)
-        # structural: identity rows on the active set
-        dFa = dF.toarray()
-        for j in np.where(act)[0]:
-            row = np.zeros(n + m)
-            row[j] = 1.0
-            if not np.array_equal(dFa[j], row):
-                bad("deriv", "row %d of the generalised Jacobian is not an identity row for an active component" % j)
+            # ---- implicit function
+            func = ImplicitFunc(tp, ith, dt)
+            sfunc = ScaledImplicitFunc(tp, ith, dt)
+            lam = 1.0 / dt
+            finite_lb = np.where(np.isfinite(D.lb), np.abs(D.lb), 0.0)
+            finite_ub = np.where(np.isfinite(D.ub), np.abs(D.ub), 0.0)
+            p = R.proj_point(D, xh, x, y, rho, dt)
+            pmag = np.abs(xh) + dt * mag_dx
+            amb = (np.abs(p - (D.lb - 1e-8)) <= 1e-10 * (pmag + 1.0)) | (np.abs(p - (D.ub + 1e-8)) <= 1e-10 * (pmag + 1.0))
+            act_ref = R.active_set(D, p)
+            cmp("projection_initial", func.projection_initial(it, rho), p, pmag)
+            if not amb.any():
+                act_got = func.compute_active_set(it, rho)
+                bump("compared_active_set")
+                bump("active_set_nonempty", int(act_ref.any()))
+                if act_got.dtype != bool or not np.array_equal(act_got, act_ref):
+                    bad("compute_active_set", "active set %s differs from definition %s" % (act_got, act_ref))
+                Fref, _ = R.implicit_F(D, xh, yh, x, y, rho, dt)
+                Fmag = np.concatenate([np.abs(x) + pmag + (finite_lb + finite_ub) * act_ref,
+                                       ya + np.abs(yh) + dt * ca])
+                cmp("value_at", func.value_at(it, rho), Fref, Fmag)
+            # tau variant of the active-set rule
+            tau = float(10.0 ** rng.uniform(-3, 1))
+            ptau = R.proj_point(D, xh, x, y, rho, dt, tau)
+            ptmag = (abs(1.0 - tau * lam) * np.abs(x) + tau * lam * np.abs(xh) + tau * mag_dx)
+            cmp("projection_initial_tau", func.projection_initial(it, rho, tau), ptau, ptmag)
+            ambt = (np.abs(ptau - (D.lb - 1e-8)) <= 1e-10 * (ptmag + 1.0)) | (np.abs(ptau - (D.ub + 1e-8)) <= 1e-10 * (ptmag + 1.0))
+            if not ambt.any():
+                bump("compared_active_set_tau")
+                if not np.array_equal(func.compute_active_set(it, rho, tau), R.active_set(D, ptau)):
+                    bad("compute_active_set(tau)", "active set differs from definition for tau=%r" % tau)
+            # given (random) active set
+            act = rng.random(size=n) < 0.4
+            Fref, _ = R.implicit_F(D, xh, yh, x, y, rho, dt, act)
+            finite_lb = np.where(np.isfinite(D.lb), np.abs(D.lb), 0.0)
+            finite_ub = np.where(np.isfinite(D.ub), np.abs(D.ub), 0.0)
+            Fmag = np.concatenate([np.abs(x) + pmag + (finite_lb + finite_ub) * act, ya + np.abs(yh) + dt * ca])
+            cmp("value_at(active_set)", func.value_at(it, rho, act), Fref, Fmag)
+            proj = func.project(np.copy(p), act)
+            bump("compared_project")
+            if not (np.all(proj[act] >= D.lb[act]) and np.all(proj[act] <= D.ub[act])):
+                bad("project", "projected components outside the box")
+            if not np.array_equal(proj[~act], p[~act]):
+                bad("project", "inactive components were changed by the projection")
+            exp_proj = np.array(p, copy=True)
+            exp_proj[act] = np.minimum(np.maximum(p[act], D.lb[act]), D.ub[act])
+            if not np.array_equal(proj, exp_proj):
+                bad("project", "projection differs from clip on the active components")
+            dF = func.deriv(it.aug_lag_deriv_xy(), it.aug_lag_deriv_xx(rho), act)
+            dFref = R.implicit_dF(D, x, y, rho, dt, act)
+            dmag = np.block([[np.eye(n) + dt * Hmag, dt * Ja.T], [dt * Ja, np.eye(m)]])
+            cmp("deriv", dF.toarray(), dFref, dmag)
+            # structural: identity rows on the active set
+            dFa = dF.toarray()
+            for j in np.where(act)[0]:
+                row = np.zeros(n + m)
+                row[j] = 1.0
+                if not np.array_equal(dFa[j], row):
+                    bad("deriv", "row %d of the generalised Jacobian is not an identity row for an active component" % j)
+                    break
+            cmp("deriv_at", func.deriv_at(it, rho, act).toarray(), dFref, dmag)
+            # scaled function
+            sF, _ = R.scaled_F(D, xh, yh, x, y, rho, dt, act)
+            sFmag = np.concatenate([lam * np.abs(x) + lam * np.abs(xh) + mag_dx + lam * (finite_lb + finite_ub) * act,
+                                    lam * ya + lam * np.abs(yh) + ca])
+            cmp("scaled_value_at", sfunc.value_at(it, rho, act), sF, sFmag)
+            sdF = sfunc.deriv(it.aug_lag_deriv_xy(), it.aug_lag_deriv_xx(rho), act).toarray()
+            sdmag = np.block([[lam * np.eye(n) + Hmag, Ja.T], [Ja, lam * np.eye(m)]])
+            cmp("scaled_deriv", sdF, R.scaled_dF(D, x, y, rho, dt, act), sdmag)
+            # keep_rows
+            M = rng.normal(size=(n, n + 1)) * (rng.random(size=(n, n + 1)) < 0.6)
+            filt = rng.random(size=n) < 0.6
+            kr = keep_rows({"coo": sps.coo_matrix, "csr": sps.csr_matrix, "csc": sps.csc_matrix}[fmt](M), filt)
+            bump("compared_keep_rows")
+            if kr.shape != M.shape or not np.array_equal(kr.toarray(), M * filt[:, None]):
+                bad("keep_rows", "result differs from zeroing the filtered rows")
+            keys.append("%s-%s-%s" % (fam, "-".join(map(str, gseed)), sc))
+            if sample is None and n <= 3 and m >= 1:
+                sample = {"spec": spec.summary(), "scaling": sc, "x": x, "y": y, "rho": rho, "dt": dt,
+                          "active_set_given": act, "aug_lag": R.aug_lag(D, x, y, rho),
+                          "stat_res": R.stat_res(D, x, y, atol)}
+            if len(viol) > 8:
                 break
-        cmp("deriv_at", func.deriv_at(it, rho, act).toarray(), dFref, dmag)
-        # scaled function
-        sF, _ = R.scaled_F(D, xh, yh, x, y, rho, dt, act)
-        sFmag = np.concatenate([lam * np.abs(x) + lam * np.abs(xh) + mag_dx + lam * (finite_lb + finite_ub) * act,
-                                lam * ya + lam * np.abs(yh) + ca])
-        cmp("scaled_value_at", sfunc.value_at(it, rho, act), sF, sFmag)
-        sdF = sfunc.deriv(it.aug_lag_deriv_xy(), it.aug_lag_deriv_xx(rho), act).toarray()
-        sdmag = np.block([[lam * np.eye(n) + Hmag, Ja.T], [Ja, lam * np.eye(m)]])
-        cmp("scaled_deriv", sdF, R.scaled_dF(D, x, y, rho, dt, act), sdmag)
-        # keep_rows
-        M = rng.normal(size=(n, n + 1)) * (rng.random(size=(n, n + 1)) < 0.6)
-        filt = rng.random(size=n) < 0.6
-        kr = keep_rows({"coo": sps.coo_matrix, "csr": sps.csr_matrix, "csc": sps.csc_matrix}[fmt](M), filt)
-        bump("compared_keep_rows")
-        if kr.shape != M.shape or not np.array_equal(kr.toarray(), M * filt[:, None]):
-            bad("keep_rows", "result differs from zeroing the filtered rows")
-        keys.append("%s-%s-%s" % (fam, "-".join(map(str, gseed)), sc))
-        if sample is None and n <= 3 and m >= 1:
-            sample = {"spec": spec.summary(), "scaling": sc, "x": x, "y": y, "rho": rho, "dt": dt,
-                      "active_set_given": act, "aug_lag": R.aug_lag(D, x, y, rho),
-                      "stat_res": R.stat_res(D, x, y, atol)}
-        if len(viol) > 8:
-            break
+        except Exception as ex:
+            # an exception coming out of the repository code is an observation, one of the harness is not
+            if not work.raised_in_repo(ex):
+                raise
+            viol.append({"what": "evaluation raised %s: %s (%s)" % (type(ex).__name__, str(ex)[:100], work.repo_frame(ex)),
+                         "key": {"quantity": "exception", "exc": type(ex).__name__, "where": work.repo_frame(ex)},
+                         "detail": {"case": case["seed"] + [k]}})
     out = {"viol": viol[:6], "evals": case["count"], "nt_keys": keys, "ctr": ctr,
            "maxes": {"error_over_allowance_" + q: v for q, v in worst_ratio.items()}}
     if sample:
@@ -266,13 +277,14 @@ def run_case(case):
 
 def finalize(agg, tier):
     return {
-        "rule": "generated NLP/QP/degenerate/infeasible specs (optionally with custom power-of-two scaling) x points with "
+        "rule": "generated NLP/QP/degenerate/infeasible specs and QPs whose matrices are handed over as float32 / integer / bool sparse matrices (optionally with custom power-of-two scaling) x points with "
                 "components inside, on, within +-1e-9 of and outside the bounds x random multipliers (1e-2..1e2), "
                 "rho in 1e-8..1e2, dt in 1e-6..1e3, computed and random active sets, tau in 1e-3..10; non-trivial = all "
                 "quantities of the case were compared; distinct by (spec seed, scaling)",
         "floors": {"compared_aug_lag_deriv_xx": 1000, "compared_value_at": 500, "compared_deriv": 1000,
                    "compared_active_set": 500, "active_set_nonempty": 200, "compared_locally_infeasible": 500,
-                   "compared_keep_rows": 1000, "compared_scaled_deriv": 1000},
+                   "compared_keep_rows": 1000, "compared_scaled_deriv": 1000, "jacobian_dtype_float32": 100,
+                   "jacobian_dtype_bool": 30},
         "assumptions": ["tolerance 1e-12 x (sum of absolute values of all terms) covers summation-order rounding only",
                         "active-set comparisons are skipped when the reference projection point lies within 1e-10 "
                         "(relative) of the 1e-8 activity threshold"],
